@@ -283,6 +283,8 @@ def binary_leg(texts, rng, n, rep, stats):
     home = os.path.join(d, "home")
     os.makedirs(home)
     env = {"HOME": home, "PATH": "/usr/bin:/bin"}
+    if os.environ.get("VERIF_COVERAGE") and os.environ.get("LLVM_PROFILE_FILE"):      # development aid, see common._cargo_env
+        env["LLVM_PROFILE_FILE"] = os.environ["LLVM_PROFILE_FILE"]
     try:
         for i, t in enumerate(rng.sample(texts, min(n, len(texts)))):
             src = os.path.join(d, "b%d.ucg" % i)
